@@ -22,7 +22,8 @@ EXPLANATION = (
     "header's prev hash with the hash of its predecessor, truncates one header before the first mismatch and "
     "recomputes the size. Header layout: serialize/deserialize agree on 112 bytes (offsets 0/4/36/68/100)."
 )
-TECHNIQUE = "static analysis: must-precede ordering, who-may-call, guard dominance, loop-carried def-use order, expression-tree comparison against a declared rule table, inclusive/exclusive bound (UNIT) check"
+EXACTNESS = "Second pass (DESIGN.md §10, exactness / completeness halves) — a fully valid batch is stored whole (`added`/`bail` start values, write exactly under `chunk`, break exactly under `bail`), `_write` sequence incl. flush, retarget context (first / second block, heights > 0 / > 1), repair failure tests, truncation, carry and partial-header cut exactly under their conditions, which repair `open` runs and from where, checkpoint bookkeeping."
+TECHNIQUE = "static analysis: must-precede ordering, who-may-call, guard dominance, loop-carried def-use order, expression-tree comparison against a declared rule table, inclusive/exclusive bound (UNIT) check; exact fact-set comparison of the tests dominating each effect and refusal (effect / refusal tables), fall-through path queries"
 NOT_DECIDED = ("the retarget arithmetic itself (ArithUint256, compact encoding, clamp values on concrete chains), PoW hashing, and the count of "
                "headers dropped by a repair as a number")
 ASSUMPTIONS = ["the float division in ArithUint256.__truediv__ agrees with integer division on reachable operands (argument in DESIGN §9)"]
